@@ -211,7 +211,10 @@ def work(pid, tier, seed, shard, nshards, outpath):
         )
         @given(st.data())
         def test(data):
+            # every early return still draws the case: Hypothesis requires data generation to be a function of the choice
+            # sequence only (otherwise FlakyStrategyDefinition when it replays a prefix)
             if state["expired"]:
+                mod.draw_case(data, tier)
                 return
             state["calls"] += 1
             if skip_first and state["calls"] == 1:
@@ -220,9 +223,11 @@ def work(pid, tier, seed, shard, nshards, outpath):
             now = time.monotonic()
             if state["fail_start"] is not None and now - state["fail_start"] > shrink_budget:
                 state["expired"] = True
+                mod.draw_case(data, tier)
                 return
             if state["fail_start"] is None and now - t0 > budget:
                 stats.skipped_budget += 1
+                mod.draw_case(data, tier)
                 return
             case = mod.draw_case(data, tier)
             res = run_maybe_probed(mod, case)
